@@ -477,9 +477,10 @@ def norm_seq(seq):
 def check_batch(ctx, res: Result, seqs, label, shrink=True, found=None):
     """Real code + oracle on every sequence, then the model on all of them."""
     found = found if found is not None else {}
-    cases, impls, metas = [], [], []
+    cases, impls, metas, orders = [], [], [], []
     for seq in seqs:
         obs = run_impl(seq)
+        orders.append([o["ord"] for o in obs])
         res.evaluations += 1
         res.hist("length", len(seq))
         for (c, f), o in zip(seq, obs):
@@ -539,6 +540,13 @@ def check_batch(ctx, res: Result, seqs, label, shrink=True, found=None):
                 res.mismatches.append(Mismatch(
                     pair="Registry.step vs BaseObserver", case={"calls": seq, "first_differing_call": j},
                     model=str(mo[j] if j is not None else mo)[:600], impl=str(im[j] if j is not None else im)[:600]))
+    if nmis and shrink:
+        # diagnosis: does the code under test follow the pinned statement order?
+        pouts = core.run_model("registry", [model_case(seq, [dict(o, ord=o2) for o, o2 in zip(im, ords)], f2=False, f2b=False)
+                                            for seq, im, ords in zip(metas, impls, orders)])
+        agree = sum(1 for o, im in zip(pouts, impls) if model_obs(o) == im)
+        res.notes.append(f"{label}: {nmis} of {len(cases)} sequences differ from the model of the repaired code; the code under "
+                         f"test agrees with the model of the PINNED statement order (f2=f2b=false) on {agree} of {len(cases)}")
     if nmis > 3:
         res.mismatches.append(Mismatch(pair="Registry.step vs BaseObserver", case=f"{nmis - 3} more sequences ({label})",
                                        model="", impl=""))
@@ -568,27 +576,50 @@ def check_spec_runner(ctx, res: Result, seqs):
                 break
 
 
-def exhaustive(alpha, n):
-    for k in range(1, n + 1):
-        yield from (list(t) for t in itertools.product(alpha, repeat=k))
+def canonical_seqs(alpha, n):
+    """All sequences of length n over alpha up to renaming of paths, recursive flags and handlers:
+    the first path mentioned is PATHS[0], the first flag False, the first handler HANDLERS[0]
+    (the renamings act independently, so canonical = each first occurrence is the least value)."""
+    def attrs(letter):
+        c = letter[0]
+        h = c[1] if c[0] in ("S", "A", "R") else None
+        w = c[2] if c[0] in ("S", "A", "R") else c[1] if c[0] == "U" else None
+        return h, w
+    info = [attrs(l) for l in alpha]
+    out = []
+
+    def go(prefix, sp, sf, sh):
+        if len(prefix) == n:
+            out.append(list(prefix))
+            return
+        for letter, (h, w) in zip(alpha, info):
+            if h is not None and not sh and h != HANDLERS[0]:
+                continue
+            if w is not None and ((not sp and w[0] != PATHS[0]) or (not sf and w[1])):
+                continue
+            prefix.append(letter)
+            go(prefix, sp or w is not None, sf or w is not None, sh or h is not None)
+            prefix.pop()
+    go([], False, False, False)
+    return out
 
 
 def _worker(args):
-    """Run a slice of the exhaustive space in a sub-process; returns a Result-like dict."""
-    seed, prop, tier, alpha, n, lo, hi = args
+    """Run a slice of the exhaustive space in a sub-process."""
+    seed, prop, tier, seqs, label = args
     ctx = core.Ctx(prop=prop, tier=tier, seed=seed)
     res = Result()
-    it = itertools.islice(itertools.product(alpha, repeat=n), lo, hi)
-    check_batch(ctx, res, [list(t) for t in it], f"exhaustive-{n}", shrink=False)
+    check_batch(ctx, res, seqs, label, shrink=False)
     return res
 
 
 def run_exhaustive(ctx, res: Result, alpha, n, label, procs):
     import multiprocessing as mp
-    total = len(alpha) ** n
-    chunk = max(1, min(4000, total // (procs * 4) + 1))
-    jobs = [(ctx.seed, ctx.prop, ctx.tier, alpha, n, lo, min(total, lo + chunk)) for lo in range(0, total, chunk)]
     t0 = time.time()
+    seqs = canonical_seqs(alpha, n)
+    total = len(seqs)
+    chunk = max(1, min(4000, total // (procs * 4) + 1))
+    jobs = [(ctx.seed, ctx.prop, ctx.tier, seqs[lo:lo + chunk], f"exhaustive-{n}") for lo in range(0, total, chunk)]
     with mp.get_context("fork").Pool(procs) as pool:
         for r in pool.imap_unordered(_worker, jobs):
             # keep one failure per law, a few mismatches
@@ -596,8 +627,8 @@ def run_exhaustive(ctx, res: Result, alpha, n, label, procs):
             r.failures = [f for f in r.failures if f.signature.get("law") not in laws]
             r.mismatches = r.mismatches[: max(0, 4 - len(res.mismatches))]
             res.merge(r)
-    res.notes.append(f"exhaustive: all {total} sequences of length {n} over {label} ({len(alpha)} call/fault letters), "
-                     f"{time.time() - t0:.0f} s on {procs} processes")
+    res.notes.append(f"exhaustive: all {len(alpha) ** n} sequences of length {n} over {label} ({len(alpha)} call/fault "
+                     f"letters) = {total} up to renaming of paths/flags/handlers, {time.time() - t0:.0f} s on {procs} processes")
 
 
 def run(ctx) -> Result:
@@ -625,12 +656,9 @@ def run(ctx) -> Result:
     check_spec_runner(ctx, res, seqs + rseqs[:200])
     if ctx.thorough:
         procs = max(2, min(8, (os.cpu_count() or 4) // 2))
-        small = alphabet(all_watches(), HANDLERS)
-        run_exhaustive(ctx, res, small, 1, "2 paths x 2 flags x 2 handlers", 1 if True else procs)
-        run_exhaustive(ctx, res, small, 2, "2 paths x 2 flags x 2 handlers", procs)
-        run_exhaustive(ctx, res, small, 3, "2 paths x 2 flags x 2 handlers", procs)
-        mid = alphabet([["p0", False, 0], ["p0", True, 0]], HANDLERS, start_faults=(0, 1))
-        run_exhaustive(ctx, res, mid, 4, "1 path x 2 flags x 2 handlers", procs)
+        full = alphabet(all_watches(), HANDLERS)
+        for n in (1, 2, 3, 4):
+            run_exhaustive(ctx, res, full, n, "2 paths x 2 flags x 2 handlers", procs)
         tiny = alphabet([["p0", False, 0], ["p1", False, 0]], [1], start_faults=(0, 1))
         run_exhaustive(ctx, res, tiny, 5, "2 paths x 1 flag x 1 handler", procs)
         res.exhaustive = True
